@@ -302,10 +302,10 @@ func c04Goyacc(e *Env) {
 	}
 }
 
-var c04Alphabet = []string{"C", "R", "2", "b", "#", "m", "_", "/", "[", "]", ",", "{", "}", "=", " ", ";", "\n", "\r"}
+var c04Alphabet = []string{"C", "R", "2", "0", "b", "#", "m", "_", "/", "[", "]", ",", "{", "}", "=", " ", ";", "\n", "\r"}
 
 func runC04(e *Env) {
-	e.R.Rule = "every string over a 18-character alphabet (one representative per lexer case, both mode switches, both trivia kinds) up to the stated length, every extension of every reference-viable prefix up to a larger length, and every edge of the (LR stack, lexer mode) state graph of chords.y is run through the real lexer and parser and compared with the documented tokeniser + SLR(1) recogniser of chords.y (cross-checked against an Earley recogniser) + independent tree builder; distinct = distinct string; non-trivial = accepted sentence whose tree was compared"
+	e.R.Rule = "every string over a 19-character alphabet (one representative per lexer case, both mode switches, both trivia kinds) up to the stated length, every extension of every reference-viable prefix up to a larger length, and every edge of the (LR stack, lexer mode) state graph of chords.y is run through the real lexer and parser and compared with the documented tokeniser + SLR(1) recogniser of chords.y (cross-checked against an Earley recogniser) + independent tree builder; distinct = distinct string; non-trivial = accepted sentence whose tree was compared"
 	e.R.Assume("reference tokenisation as documented in DESIGN.md §3.2; acceptance oracle derived from input/ast/chords.y on disk; the generated parser is bound to chords.y by regeneration (supporting step); the LALR stack is not observed, only token stream, lexer mode (hook), verdict and tree")
 	g, p, err := loadGrammar(e.RepoDir)
 	if err != nil {
@@ -357,7 +357,7 @@ func runC04(e *Env) {
 		}
 	})
 	_ = accepted
-	e.R.AddPart(ev.Part{Name: "all-strings", Enumerated: fmt.Sprintf("every string of length 1..%d over the 18-character alphabet %q", maxLen, strings.Join(A, "")), Executions: int64(total), Exhaustive: true})
+	e.R.AddPart(ev.Part{Name: "all-strings", Enumerated: fmt.Sprintf("every string of length 1..%d over the 19-character alphabet %q", maxLen, strings.Join(A, "")), Executions: int64(total), Exhaustive: true})
 
 	// (1b) unusual characters: tab, CR, non-ASCII letters, Unicode accidentals, NUL, invalid UTF-8
 	exotic := []string{"C", "2", "m", "_", "/", "[", "]", "{", "}", "=", "\t", "\r", "é", "♭", "\x00", "\xff", "　", ";", "\n", "１"}
